@@ -2,6 +2,7 @@ import XPathV.Lemmas.PullProofs
 import XPathV.Lemmas.Pull2Proofs
 import XPathV.Model.Api
 import XPathV.Lemmas.Facts
+import XPathV.Generated.ExtraFacts
 /-!
 # C04 — a compiled expression is a pure function of (document, context node)
 
@@ -68,5 +69,12 @@ theorem clone_is_fresh_all_iterators {F : Type} [NumAlg F] (d : Doc) (cfg : ECfg
     q.clone.evaluate = q.clone ∧ q.clone.Inv d ∧
       sel (F := F) d cfg q.plan c = .ok (rem2 d cfg dec c q.clone) :=
   clone_fresh2 d cfg dec q hdec c
+
+/-- T0: a function evaluates a per-call clone of its argument query (`func.go: functionArgs`); the only dynamic type
+used in place is `functionQuery`, which has no iteration state of its own and whose callback clones *its* arguments
+when it runs (an exemption of a type that keeps state — `transformFunctionQuery` behind `reverse()`, say — makes
+evaluations share that state) -/
+theorem function_arguments_cloned_per_call :
+    Generated.functionArgsExempt = ["functionQuery"] ∧ Generated.functionArgsClonesOtherwise = true := by decide
 
 end XPathV.Theorems.C04
